@@ -223,6 +223,14 @@ def new_accs():
     return {name: Acc() for name in RULES}
 
 
+# Reference-side memo (speed only; cleared at the start of every job and replay): the number of rows of the
+# wrapped content at a width, and the rows of the ListBox items, depend only on the content description and
+# on the sequence of content-change events applied so far - no key, wheel, click, position or resize event
+# used here edits the content (Edit only receives cursor keys) - so they are computed once per such key
+# instead of once per history.
+_MEMO = {}
+
+
 # ---------------------------------------------------------------------------------------------
 # Scrollable / ScrollBar world
 # ---------------------------------------------------------------------------------------------
@@ -242,11 +250,11 @@ class World:
             self.top = self.s
         self.canv = None
         self.version = 0  # bumped by content changes (key of the monotone table)
+        self.changes = ()  # content-change events applied so far (key of _MEMO)
         self.rsizes, self.csizes, self.handled = [], [], []
         self._spy()
         self.prev = None  # last observation
         self.tops = {}  # (version, size) -> {p: set(a)}
-        self._rows = {}
 
     def _spy(self):
         # instance-level recorders (the class-level, cache-wrapped methods stay in use underneath)
@@ -282,11 +290,11 @@ class World:
 
     def total_rows(self, width):
         """Rows of the full rendering at `width`. None of the events used here changes it except
-        change_content (version bump), so it is memoised per (version, width)."""
-        k = (self.version, width)
-        if k not in self._rows:
-            self._rows[k] = len(self.full(width)[0])
-        return self._rows[k]
+        change_content, so it is memoised per (content, content changes so far, width) - see _MEMO."""
+        k = ("rows", self.spec, self.changes, width)
+        if k not in _MEMO:
+            _MEMO[k] = len(self.full(width)[0])
+        return _MEMO[k]
 
     # -- the wrapped widget's own full rendering (class-level render: not recorded by the spy)
     def full(self, cv):
@@ -313,6 +321,7 @@ class World:
         elif kind == "content":
             change_content(self.content, self.spec, ev[1])
             self.version += 1
+            self.changes += (ev[1],)
         else:
             raise ValueError(ev)
 
@@ -560,19 +569,23 @@ class LBWorld:
         self.lb.render = rec
         self.tops = {}
         self.extra = 0
-        self._rows = {}
+        self.changes = ()  # content-change events applied so far (key of _MEMO)
+        self.memo_key = (cfg["n"], tuple(cfg["two"]), bool(cfg.get("selectable")))
 
     def total_rows(self, width):
-        k = (self.version, width)
-        if k not in self._rows:
-            self._rows[k] = len(self.full(width))
-        return self._rows[k]
+        return len(self.full(width))
+
+    def items_rows(self, cv):
+        """Rows of every item at width cv (list of lists of strings; treated as read-only). The items are
+        Text / SelectableIcon widgets whose text never changes; the list of items changes only by the
+        content events, so this is memoised per (items, content changes so far, width) - see _MEMO."""
+        k = ("items", self.memo_key, self.changes, cv)
+        if k not in _MEMO:
+            _MEMO[k] = [canvas_rows(type(it).render(it, (cv,), False)) for it in self.walker]
+        return _MEMO[k]
 
     def full(self, cv):
-        rows = []
-        for it in self.walker:
-            rows.extend(canvas_rows(type(it).render(it, (cv,), False)))
-        return rows
+        return [r for item in self.items_rows(cv) for r in item]
 
     def apply(self, ev):
         c, h = self.size
@@ -589,6 +602,7 @@ class LBWorld:
                 self.lb.set_focus({"first": 0, "mid": len(self.walker) // 2, "last": len(self.walker) - 1}[ev[1]])
         elif kind == "content":
             self.version += 1
+            self.changes += (ev[1],)
             if ev[1] == "append":
                 self.walker.append(self.mk("zyxwvu"[self.extra % 6]))
                 self.extra += 1
@@ -645,10 +659,15 @@ def lb_observe(w, accs, key, base):
     # circumstances recorded for known-finding matching only (never used to decide ok): whether the ListBox's
     # own criterion for item-granular ("relative") scrolling holds for the size ScrollBar passes to it, and how
     # many rows the current first item has (a position inside the first item has 0 < p < first_item_rows)
-    first_item_rows = len(canvas_rows(type(w.walker[0]).render(w.walker[0], (cv,), False)))
+    first_item_rows = len(w.items_rows(cv)[0])
+    # the grouping class is refined for the same reason: only PER_CLASS failures of one class are kept, so the
+    # known item-granular case (view starts inside a multi-row first item) must not crowd out any other
+    # thumb-top failure of the relative-scroll branch
+    inside_first = len(w.walker) > 3 * h and a == 0 and 0 < p < first_item_rows
     accs["C20/listbox-thumb-top"].case(
         key, (a == 0) == (p == 0),
         lambda: det | {"parts": parts, "first_visible_row": p, "relative_scroll": len(w.walker) > 3 * h, "first_item_rows": first_item_rows,
+                       "class": det["class"] + (", thumb at top while the view starts inside the first item" if inside_first else ""),
                        "why": f"trough above thumb={a} rows while the view starts at content row {p}"}, sample=sample,
     )
     tab = w.tops.setdefault((w.version, c, h), {})
@@ -780,6 +799,7 @@ LB_EVENTS = (
 def _work(job):
     kind, idx, cfg, tier, extra = job
     accs = new_accs()
+    _MEMO.clear()
     if kind == "scroll":
         evs = alphabet(tier, cfg["bar"])
         maxlen = extra["maxlen"]
@@ -882,6 +902,7 @@ def replay(check_name, case):
     """Re-run the one history (or sweep) recorded in a failure detail and report whether `check_name`
     fails again at the recorded step."""
     accs = new_accs()
+    _MEMO.clear()
     cfg = case["cfg"]
     if case.get("sweep"):
         sweep(cfg, accs, 0)
